@@ -141,11 +141,28 @@ class DictV:
         return "DictV(%r)" % ({k: v[1] for k, v in self.d.items()},)
 
 
+class PropV:
+    """property(fget): read through an instance it is fget(instance)"""
+
+    def __init__(self, fget):
+        self.fget = fget
+
+
+class ObjDictV(DictV):
+    """vars(obj) / obj.__dict__ of an object of the module: stores go to the object's attributes"""
+
+    def __init__(self, obj):
+        super().__init__()
+        self.obj = obj
+        for k, v in obj.attrs.items():
+            self.d[("py", k)] = (k, v)
+
+
 class RangeV:
     """range() with a symbolic bound"""
 
-    def __init__(self, lo, hi):
-        self.lo, self.hi = lo, hi
+    def __init__(self, lo, hi, step=1):
+        self.lo, self.hi, self.step = lo, hi, step      # step is +1 or -1
 
 
 class RepeatV:
@@ -301,6 +318,53 @@ class Frame:
 
 
 _MISSING = object()
+
+
+class _ClassScope(dict):
+    """the names a class body has bound before the statement `upto` (methods as plain functions, constants evaluated on demand)"""
+
+    def __init__(self, it, c, upto):
+        super().__init__()
+        self._it, self._c, self._upto = it, c, upto
+
+    def _find(self, name):
+        c = self._c
+        for st in c.node.body:
+            if st is self._upto:
+                break
+            if isinstance(st, (ast.FunctionDef, ast.AsyncFunctionDef)) and st.name == name:
+                return "func"
+            if isinstance(st, ast.ClassDef) and st.name == name:
+                return st
+            if isinstance(st, (ast.Assign, ast.AnnAssign)) and getattr(st, "value", None) is not None and \
+                    any(isinstance(x, ast.Name) and x.id == name for t in (st.targets if isinstance(st, ast.Assign) else [st.target]) for x in ast.walk(t)):
+                return "const"
+        return None
+
+    def __contains__(self, name):
+        return dict.__contains__(self, name) or self._find(name) is not None
+
+    def __getitem__(self, name):
+        if dict.__contains__(self, name):
+            return dict.__getitem__(self, name)
+        kind = self._find(name)
+        c = self._c
+        if kind == "func":
+            return FuncV(c.methods[name], c.mod, c.closure, None, c, f"{c.name}.{name}") if name in c.methods else Unknown(f"class-level function {name}")
+        if kind == "const":
+            v = self._it._class_const(c, name)
+            return v if v is not None else Unknown(f"class-level name {name} bound more than once")
+        if isinstance(kind, ast.ClassDef):
+            key = ("class", name)
+            if key not in c.consts:
+                inner = ClassV(name, kind, c.mod)
+                inner.closure = c.closure
+                c.consts[key] = inner
+            return c.consts[key]
+        raise KeyError(name)
+
+    def get(self, name, default=None):
+        return self[name] if name in self else default
 
 
 class _ConstsView:
@@ -484,12 +548,36 @@ def py_number(v):
     return int(c) if c.denominator == 1 else c
 
 
+def _iroot(n, k):
+    """the exact integer k-th root of n >= 1, else None"""
+    if n == 1:
+        return 1
+    r = round(n ** (1.0 / k))
+    for c in (r - 1, r, r + 1):
+        if c >= 1 and c ** k == n:
+            return c
+    return None
+
+
 def pow_const_base(base, expo):
     """base ** expo for a positive rational base and a polynomial exponent with integer coefficients: the multiplicative homomorphism
     base**(sum c_i m_i) = prod (base^m_i)**c_i with one symbol per monomial m_i (a single symbol s gives the symbol `base^s`)"""
     if not expo.d.is_const():
         raise Unsupported(f"power with exponent {expo}")
     sc = 1 / expo.d.const_value()
+    # one symbol per *root* of the base: 4**s, 0.5**s, 2**(-s) are all powers of the symbol 2^s
+    base = Fraction(base)
+    mult = 1
+    if base < 1:
+        base, mult = 1 / base, -1
+    for k in range(62, 1, -1):
+        rn, rd = _iroot(base.numerator, k), _iroot(base.denominator, k)
+        if rn is not None and rd is not None:
+            base, mult = Fraction(rn, rd), mult * k
+            break
+    if base == 1:
+        return F.const(1)
+    sc = sc * mult
     out = F.const(1)
     for m, c in expo.n.t.items():
         c = c * sc
@@ -887,6 +975,37 @@ def _catches(handler, kind):
     return None if undecided else False
 
 
+def _no_effect_expr(st):
+    """an expression statement that changes nothing the evaluator follows: a docstring / constant, a call of warnings.* / print / logging.*"""
+    v = st.value
+    if isinstance(v, ast.Constant):
+        return True
+    if isinstance(v, ast.Call):
+        try:
+            name = ast.unparse(v.func)
+        except Exception:  # noqa
+            return False
+        return name.startswith(NO_EFFECT_STATEMENTS) and not any(isinstance(x, (ast.NamedExpr, ast.Yield, ast.YieldFrom, ast.Await)) for x in ast.walk(v))
+    return False
+
+
+def _surely_differ(a, b):
+    """two sequences of known items with different content"""
+    if len(a) != len(b):
+        return True
+    for x, y in zip(a, b):
+        if isinstance(x, SEQ) and isinstance(y, SEQ):
+            if _surely_differ(x, y):
+                return True
+        elif is_const(x) and is_const(y):
+            if cval(x) != cval(y):
+                return True
+        elif isinstance(x, str) and isinstance(y, str):
+            if x != y:
+                return True
+    return False
+
+
 def _only_raises(stmts):
     """an arm that can do nothing but raise"""
     if not stmts:
@@ -895,12 +1014,12 @@ def _only_raises(stmts):
     for st in stmts:
         if isinstance(st, ast.Raise):
             has = True
-        elif isinstance(st, (ast.Pass, ast.Expr, ast.Assert)):
+        elif isinstance(st, (ast.Pass, ast.Assert)) or (isinstance(st, ast.Expr) and _no_effect_expr(st)):
             continue
         elif isinstance(st, ast.If):
             # nested test whose arms only raise / do nothing
             a, b = _only_raises(st.body), (not st.orelse or _only_raises(st.orelse))
-            if not (a or all(isinstance(x, (ast.Pass, ast.Expr)) for x in st.body)) or not b:
+            if not (a or all(isinstance(x, ast.Pass) or (isinstance(x, ast.Expr) and _no_effect_expr(x)) for x in st.body)) or not b:
                 return False
             continue
         else:
@@ -913,7 +1032,7 @@ def _may_only_raise_or_pass(stmts):
     for st in stmts:
         if isinstance(st, (ast.Raise, ast.Pass, ast.Assert)):
             continue
-        if isinstance(st, ast.Expr):
+        if isinstance(st, ast.Expr) and _no_effect_expr(st):
             continue
         if isinstance(st, ast.If) and _may_only_raise_or_pass(st.body) and _may_only_raise_or_pass(st.orelse):
             continue
@@ -1079,6 +1198,8 @@ class Interp:
     def _set_item(self, d, key, val):
         self._log("dict", d, key, d.d.get(key, _MISSING))
         d.d[key] = val
+        if isinstance(d, ObjDictV) and key[0] == "py" and isinstance(key[1], str):
+            self._set_attr(d.obj, key[1], val[1])
 
     def _touch_list(self, lst):
         self._log("list", lst, list(lst))
@@ -1421,6 +1542,9 @@ class Interp:
         for st in ast.walk(mod.tree):
             if isinstance(st, ast.Global):
                 names.update(st.names)
+            # a module that binds names dynamically: which names exist cannot be read off the source
+            if isinstance(st, ast.Call) and isinstance(st.func, ast.Name) and st.func.id in ("globals", "exec", "eval", "vars", "locals", "__import__"):
+                star = True
         self._names[k] = None if star else names
         return self._names[k]
 
@@ -1444,10 +1568,17 @@ class Interp:
             c = base.cls
             if name == "__class__" and c is not None:
                 return c
+            if name == "__dict__":
+                return ObjDictV(base)
             c = self._owner(c, name) if c is not None else None          # the class (or module-defined base class) that defines it
             if c is not None and name not in c.methods:
                 cv = self._class_const(c, name)
                 if cv is not None:
+                    if isinstance(cv, PropV):
+                        return self.apply(cv.fget, [base], {}, node or c.node)
+                    if isinstance(cv, Obj) and cv.cls is not None and cv is not base and "__get__" in self._owner(cv.cls, "__get__").methods:
+                        # a descriptor: the attribute is what its __get__(instance, owner) returns
+                        return self.apply(self._getattr(cv, "__get__", node), [base, base.cls], {}, node or cv.cls.node)
                     return cv
             if c is not None and name in c.methods:
                 fn = c.methods[name]
@@ -1465,6 +1596,9 @@ class Interp:
                 r = self.hook(self, "getattr", [base, name], {}, node)
                 if r is not NotImplemented:
                     return r
+            if base.cls is not None and self._closed(base.cls) and not name.startswith("__"):
+                # every class the object derives from is defined in the module and none defines __getattr__: there is no such attribute
+                return Crash(f"AttributeError: '{base.cls.name}' object has no attribute '{name}'")
             return Unknown(f"attribute {name} of {base!r}")
         if isinstance(base, F.Rat):
             if name in ("T", "real"):
@@ -1536,6 +1670,21 @@ class Interp:
                     c.bases.append(bv)
         return c.bases
 
+    def _closed(self, c, depth=0):
+        """the class and all its ancestors are classes of the module (or `object`) and none defines __getattr__ / __getattribute__"""
+        if depth > 8 or "__getattr__" in c.methods or "__getattribute__" in c.methods or c.node.keywords:
+            return False
+        for b in c.node.bases:
+            try:
+                bv = self.ev(b, Frame(None, c.closure, c.mod))
+            except Unsupported:
+                return False
+            if isinstance(bv, Ref) and bv.name == "object":
+                continue
+            if not isinstance(bv, ClassV) or not self._closed(bv, depth + 1):
+                return False
+        return True
+
     def _owner(self, c, name, depth=0):
         """the first class in c's (module-defined) ancestry whose body binds `name`; c itself when none does"""
         def binds(k):
@@ -1563,12 +1712,21 @@ class Interp:
         st = found[0]
         c.consts[name] = Unknown(f"recursive class constant {name}")
         try:
-            val = self.ev(st.value, Frame(None, c.closure, c.mod))
+            scope = Frame(None, c.closure, c.mod)
+            scope.vars = _ClassScope(self, c, st)           # (the class body is a scope: names bound earlier in it are visible)
+            val = self.ev(st.value, scope)
         except Unsupported as e:
             val = Unknown(str(e))
         tmp = Frame(None, None, c.mod)
         for t in (st.targets if isinstance(st, ast.Assign) else [st.target]):
             self._bind_target(t, val, tmp, st)
+        for nm, v in tmp.vars.items():
+            # descriptors are told the name they are bound to (object.__set_name__)
+            if isinstance(v, Obj) and v.cls is not None and "__set_name__" in self._owner(v.cls, "__set_name__").methods:
+                try:
+                    self.apply(self._getattr(v, "__set_name__", st), [c, nm], {}, st)
+                except (_Raise, _CrashSig):
+                    tmp.vars[nm] = Unknown(f"__set_name__ of the descriptor bound to {nm} raises")
         c.consts.update(tmp.vars)
         return c.consts.get(name)
 
@@ -1765,6 +1923,16 @@ class Interp:
                 return not neg
             if isinstance(a, Ref) and isinstance(b, Ref) and a.name == b.name:
                 return not neg
+            if isinstance(a, SEQ) and isinstance(b, SEQ):
+                # two lists built separately are two objects; two tuples with different content are (equal constant tuples may be
+                # one object in CPython: not decided)
+                if isinstance(a, list) or isinstance(b, list) or _surely_differ(a, b):
+                    return neg
+            if isinstance(a, (Obj, ClassV, FuncV)) and isinstance(b, (Obj, ClassV)) or isinstance(a, (Obj, ClassV)) and isinstance(b, FuncV):
+                return neg                          # (objects / classes of the module are kept one host object each)
+            if isinstance(a, (str, SEQ, DictV, Obj)) != isinstance(b, (str, SEQ, DictV, Obj)) and isinstance(a, (F.Rat, str, tuple, list, DictV, Obj)) \
+                    and isinstance(b, (F.Rat, str, tuple, list, DictV, Obj)) and not (isinstance(a, F.Rat) and isinstance(b, F.Rat)):
+                return neg                          # an array / number is never a sequence / dict / object of the module
             return Unknown("identity of two objects")
         if isinstance(op, (ast.In, ast.NotIn)):
             neg = isinstance(op, ast.NotIn)
@@ -2188,7 +2356,22 @@ class Interp:
             return iter([v.value] * max(int(cval(v.count)), 0))
         if isinstance(v, Obj) and v.cls is not None and "__iter__" in self._owner(v.cls, "__iter__").methods:
             r = self.apply(self._getattr(v, "__iter__", None), [], {}, v.cls.node)
-            return self._iter(r) if not isinstance(r, Obj) else None
+            if not isinstance(r, Obj):
+                return self._iter(r)
+            if r.cls is not None and "__next__" in self._owner(r.cls, "__next__").methods:
+                # the iterator protocol: __next__ until it raises StopIteration
+                def protocol(r=r):
+                    nxt = self._getattr(r, "__next__", None)
+                    while True:
+                        try:
+                            x = self.apply(nxt, [], {}, r.cls.node)
+                        except _Raise as e:
+                            if _raised_class(e.node) == "StopIteration":
+                                return
+                            raise
+                        yield x
+                return protocol()
+            return None
         return None
 
     # ------------------------------------------------------------------ calls
@@ -2605,6 +2788,8 @@ class Interp:
                 return RangeV(F.const(0), to_rat(pos[0]))
             if n == 2:
                 return RangeV(to_rat(pos[0]), to_rat(pos[1]))
+            if n == 3 and is_const(pos[2]) and cval(pos[2]) in (1, -1):
+                return RangeV(to_rat(pos[0]), to_rat(pos[1]), int(cval(pos[2])))
             return NotImplemented
         # iterators: zip, enumerate, map, filter, reversed, iter produce their items on demand and have a position
         if name in ("zip", "itertools.zip_longest"):
@@ -2874,6 +3059,10 @@ class Interp:
                 t._names = fields
                 return t
             return Native("namedtuple " + pos[0], make)
+        if name == "vars" and n == 1 and not kw and isinstance(pos[0], Obj):
+            return ObjDictV(pos[0])
+        if name == "property" and 1 <= n <= 2 and set(kw) <= {"doc"} and isinstance(pos[0], (FuncV, Native)):
+            return PropV(pos[0])              # (a setter, if given, is not what a read of the attribute runs)
         if name == "setattr" and n == 3 and not kw:
             if isinstance(pos[0], Obj) and isinstance(pos[1], str):
                 self._set_attr(pos[0], pos[1], pos[2])
@@ -2881,11 +3070,15 @@ class Interp:
             return Unknown("setattr on a value that is not an object of the module / with a computed name")
         if name == "hasattr" and n == 2 and isinstance(pos[0], Obj) and isinstance(pos[1], str):
             r = self._getattr(pos[0], pos[1], node)
+            if is_crash(r) and r.why.startswith("AttributeError"):
+                return False
             return Unknown("hasattr of an attribute the evaluator does not know") if is_unknown(r) else True
         if name == "getattr" and n in (2, 3):
             if not isinstance(pos[1], str):
                 return Unknown("getattr with a computed name")
             r = self._getattr(pos[0], pos[1], node)
+            if is_crash(r) and r.why.startswith("AttributeError") and n == 3:
+                return pos[2]
             if is_unknown(r) and n == 3:
                 return Unknown("getattr default")
             return r
@@ -2908,6 +3101,13 @@ class Interp:
                 if t is (name == "any"):
                     return t
             return name == "all"
+        if name == "next" and n >= 1 and isinstance(pos[0], Obj) and pos[0].cls is not None and "__next__" in self._owner(pos[0].cls, "__next__").methods:
+            try:
+                return self.apply(self._getattr(pos[0], "__next__", node), [], {}, node, fr)
+            except _Raise as e:
+                if _raised_class(e.node) == "StopIteration" and n > 1:
+                    return pos[1]
+                raise
         if name == "next" and n >= 1:
             if not isinstance(pos[0], IterV):
                 return Unknown("next() of a value that is not a followed iterator")
@@ -2943,6 +3143,17 @@ class Interp:
             if isinstance(f0, (FuncV, ClassV, Ref, Native)):
                 return Native("partial", lambda it_, p_, k_, nd_: it_.apply(f0, pre + list(p_), {**prekw, **k_}, nd_, fr))
             return Unknown("functools.partial of a value that is not a function")
+        if name == "operator.itemgetter" and n == 1 and not kw and isinstance(pos[0], F.Rat) and not is_const(pos[0]):
+            ix0 = pos[0]
+
+            def agetter(it_, p_, k_, nd_):
+                if len(p_) == 1 and isinstance(p_[0], F.Rat) and not is_unknown(p_[0]):
+                    if it_.erase:
+                        return p_[0]
+                    root, ix = it_.subscript(p_[0], ix0)
+                    return F.fn("idx", root, ix)
+                return Unknown("operator.itemgetter(index) of a value that is not an array")
+            return Native("itemgetter", agetter)
         if name == "operator.itemgetter" and n == 1 and not kw and is_const(pos[0]) and cval(pos[0]).denominator == 1:
             k0 = int(cval(pos[0]))
 
@@ -3283,8 +3494,14 @@ class Interp:
                     if it.optional_vars is not None:
                         self._bind_target(it.optional_vars, v, fr, st)
                 yield from self._gen_run(st.body, fr)
-            elif isinstance(st, ast.Try) and not st.handlers:
-                yield from self._gen_run(st.body, fr)
+            elif isinstance(st, ast.Try):
+                try:
+                    yield from self._gen_run(st.body, fr)
+                except (_Raise, _CrashSig):
+                    if st.handlers:
+                        raise Unsupported(f"an exception inside a `try` with handlers around a `yield` at line {st.lineno}")
+                    self.run(st.finalbody, fr)
+                    raise
                 yield from self._gen_run(st.orelse, fr)
                 yield from self._gen_run(st.finalbody, fr)
             else:
@@ -3816,6 +4033,36 @@ class Interp:
                     if r is not True:
                         res = None
                 return res
+            if isinstance(pat, ast.MatchClass):
+                cv = self.ev(pat.cls, fr)
+                if not isinstance(cv, ClassV):
+                    raise Unsupported(f"class pattern on a class the evaluator does not follow at line {st.lineno}")
+                inst = self._builtin("isinstance", [subj, cv], {}, st, fr)
+                if inst is not True and inst is not False:
+                    raise Unsupported(f"undecided class pattern at line {st.lineno}")
+                if not inst:
+                    return False
+                names = list(pat.kwd_attrs)
+                subs = list(pat.kwd_patterns)
+                if pat.patterns:
+                    margs = self._class_const(self._owner(cv, "__match_args__"), "__match_args__")
+                    if margs is None and self._record_class(cv) is not None:
+                        margs = tuple(n for n, _d in self._fields(cv))
+                    if not isinstance(margs, SEQ) or len(margs) < len(pat.patterns) or not all(isinstance(x, str) for x in margs):
+                        raise Unsupported(f"positional class pattern without known __match_args__ at line {st.lineno}")
+                    names = list(margs[:len(pat.patterns)]) + names
+                    subs = list(pat.patterns) + subs
+                res = True
+                for nm_, q in zip(names, subs):
+                    av = self._getattr(subj, nm_, st)
+                    if is_crash(av):
+                        return False
+                    r = matches(q, av)
+                    if r is False:
+                        return False
+                    if r is not True:
+                        res = None
+                return res
             if isinstance(pat, ast.MatchAs):
                 r = True if pat.pattern is None else matches(pat.pattern, subj)
                 if r is True and pat.name is not None:
@@ -4004,7 +4251,7 @@ class Interp:
             return
         rec = LoopRec(st, "for")
         if isinstance(it, RangeV):
-            rec.trip = it.hi - it.lo
+            rec.trip = (it.hi - it.lo) if it.step == 1 else (it.lo - it.hi)
         elif isinstance(it, RepeatV):
             rec.trip = to_rat(it.count)
             rec.item = it.value
